@@ -179,3 +179,413 @@ Section KnFormulas.
     by rewrite (ev_centered envf_w ok) envf_K ev_rows ev_all ev_kscale [in LHS]mxE.
   Qed.
 End KnFormulas.
+
+(* ---- Part 3: theorems ------------------------------------------------------------------------ *)
+Section Gram.
+  Variable F : rcfType.
+  Variables (n p k : nat) (u : 'cV[F]_n) (Phi : 'M[F]_(n, p)) (Psi : 'M[F]_(k, p)).
+
+  (* kernel centring of a Gram matrix is the Gram matrix of the centred features, for ANY
+     averaging vector u (mu = u^T Phi) *)
+  Lemma centered_gram :
+    let mu := u^T *m Phi in
+    Psi *m Phi^T - const_mx 1 *m (u^T *m (Phi *m Phi^T)) - (Psi *m Phi^T *m u) *m const_mx 1
+    + ((u^T *m (Phi *m Phi^T)) *m u) ord0 ord0 *: const_mx 1
+    = (Psi - const_mx 1 *m mu) *m (Phi - const_mx 1 *m mu)^T.
+  Proof.
+    move=> mu; rewrite -ones_11_ones linearB /= !trmx_mul trmxK trmx_const.
+    rewrite mulmxBl !mulmxBr /mu !mulmxA opprB addrA.
+    by rewrite [RHS]addrAC; congr (_ + _); rewrite addrAC.
+  Qed.
+End Gram.
+
+Section KnTheorems.
+  Variable F : rcfType.
+  Variables (cfg : kn_cfg) (n : nat) (w : 'cV[F]_n).
+  Hypothesis ok : kn_wok cfg w.
+  Let ew := kn_effw cfg w.
+
+  (* centre of the features: weighted training mean, or 0 when centring is off *)
+  Definition feat_mu p (Phi : 'M[F]_(n, p)) : 'rV[F]_p :=
+    if kn_center cfg then wmean ew Phi else 0.
+
+  Lemma centered_feat p k (Phi : 'M[F]_(n, p)) (Psi : 'M[F]_(k, p)) :
+    let K := Phi *m Phi^T in
+    centered_mx cfg w (Psi *m Phi^T) (rows_spec cfg K w) ((all_spec cfg K w) ord0 ord0)
+    = (Psi - rows_of k (feat_mu Phi)) *m (Phi - rows_of n (feat_mu Phi))^T.
+  Proof.
+    rewrite /= /centered_mx /all_spec /rows_spec /feat_mu !rows_ofE wmeanE -/ew.
+    case: (kn_center cfg); first exact: centered_gram.
+    by rewrite !mulmx0 mul0mx !subr0 mxE scale0r addr0.
+  Qed.
+
+  (* C12_center_feature_space *)
+  Lemma kn_center_feature_space p (Phi : 'M[F]_(n, p)) :
+    let K := Phi *m Phi^T in
+    let mu := feat_mu Phi in
+    let st := kn_fit_mx cfg K w in
+    st.2 = (if kn_trace cfg
+            then (\tr ((Phi - rows_of n mu) *m (Phi - rows_of n mu)^T) / n%:R)%:M else 1%:M)
+    /\ forall k (Psi : 'M[F]_(k, p)),
+         kn_transform_mx cfg w st (Psi *m Phi^T)
+         = (st.2 ord0 ord0)^-1 *: ((Psi - rows_of k mu) *m (Phi - rows_of n mu)^T).
+  Proof.
+    move=> K mu st; rewrite /st kn_fit_mxE //=; split.
+      by rewrite /scale_spec centered_feat.
+    by move=> k Psi; rewrite kn_transform_mxE //= centered_feat.
+  Qed.
+
+  (* C12_trace_n: for ANY square K *)
+  Lemma kn_trace_n (K : 'M[F]_(n, n)) :
+    kn_trace cfg ->
+    let st := kn_fit_mx cfg K w in
+    st.2 ord0 ord0 != 0 -> \tr (kn_transform_mx cfg w st K) = n%:R.
+  Proof.
+    move=> tr st; rewrite /st kn_fit_mxE //= kn_transform_mxE //= /scale_spec tr.
+    rewrite mxtraceZ mxE eqxx mulr1n; set t := \tr _ => nz.
+    have t0 : t != 0 by apply: contraNneq nz => ->; rewrite mul0r.
+    have n0 : (n%:R : F) != 0 by apply: contraNneq nz => ->; rewrite invr0 mulr0.
+    by rewrite invf_div divfK.
+  Qed.
+
+  (* C12_flags *)
+  Lemma kn_no_center (K : 'M[F]_(n, n)) :
+    ~~ kn_center cfg ->
+    let st := kn_fit_mx cfg K w in
+    [/\ st.1.1 = 0, st.1.2 = 0,
+        st.2 = (if kn_trace cfg then (\tr K / n%:R)%:M else 1%:M)
+      & forall k (Kt : 'M[F]_(k, n)), kn_transform_mx cfg w st Kt = (st.2 ord0 ord0)^-1 *: Kt].
+  Proof.
+    move=> /negbTE nc st; rewrite /st kn_fit_mxE //= /scale_spec /all_spec /rows_spec nc.
+    have cz k (A : 'M[F]_(k, n)) : centered_mx cfg w A 0 ((0 : 'M[F]_(1, 1)) ord0 ord0) = A.
+      by rewrite /centered_mx nc mulmx0 mul0mx !subr0 mxE scale0r addr0.
+    by split=> // [|k Kt]; rewrite ?kn_transform_mxE //= ?cz.
+  Qed.
+
+  Lemma kn_no_trace (K : 'M[F]_(n, n)) :
+    ~~ kn_trace cfg ->
+    let st := kn_fit_mx cfg K w in
+    st.2 = 1%:M
+    /\ forall k (Kt : 'M[F]_(k, n)),
+         kn_transform_mx cfg w st Kt = centered_mx cfg w Kt st.1.1 (st.1.2 ord0 ord0).
+  Proof.
+    move=> /negbTE nt st; rewrite /st kn_fit_mxE //= /scale_spec nt; split=> // k Kt.
+    by rewrite kn_transform_mxE //= mxE eqxx mulr1n invr1 scale1r.
+  Qed.
+
+  (* C12_fit_transform *)
+  Lemma kn_fit_transform_eq (K : 'M[F]_(n, n)) :
+    kn_fit_transform_mx cfg K w = kn_transform_mx cfg w (kn_fit_mx cfg K w) K.
+  Proof. by rewrite kn_fit_transform_mxE // kn_transform_mxE // kn_fit_mxE. Qed.
+End KnTheorems.
+
+(* ---- the explicit feature route evaluates to the same thing ---------------------------------- *)
+Section FeatureRoute.
+  Variable F : rcfType.
+  Variables (cfg : kn_cfg) (n p k : nat) (w : 'cV[F]_n).
+  Variables (Phi : 'M[F]_(n, p)) (Psi : 'M[F]_(k, p)).
+  Hypothesis ok : kn_wok cfg w.
+
+  Let envk := env_of [:: box0 F; box w; box0 F; box0 F; box0 F; box0 F; box0 F; box0 F; box Phi; box Psi].
+  Lemma envk_w : envk n 1%N 1%N = w.
+  Proof. by rewrite /envk /env_of /= unbox_box. Qed.
+  Lemma envk_Phi : eval_mx envk (kPhi n p) = Phi.
+  Proof. by rewrite /kPhi evVar /envk /env_of /= unbox_box. Qed.
+  Lemma envk_Psi : eval_mx envk (kPsi p k) = Psi.
+  Proof. by rewrite /kPsi evVar /envk /env_of /= unbox_box. Qed.
+
+  Lemma ev_kf_mu : eval_mx envk (kf_mu cfg n p) = feat_mu cfg w Phi.
+  Proof.
+    rewrite /kf_mu /feat_mu; case: (kn_center cfg) => //.
+    by rewrite (ev_avg0 envk_w ok) envk_Phi wmeanE.
+  Qed.
+
+  Lemma ev_kf_cen q (A : mexp q p) :
+    eval_mx envk (kf_cen cfg n p A) = eval_mx envk A - rows_of q (feat_mu cfg w Phi).
+  Proof. by rewrite /kf_cen evSub evMul evOnes ev_kf_mu rows_ofE. Qed.
+
+  Lemma ev_kf_scale :
+    eval_mx envk (kf_scale cfg n p)
+    = if kn_trace cfg
+      then (\tr ((Phi - rows_of n (feat_mu cfg w Phi)) *m (Phi - rows_of n (feat_mu cfg w Phi))^T)
+            / n%:R)%:M
+      else 1%:M.
+  Proof.
+    rewrite /kf_scale; case: (kn_trace cfg); last by [].
+    rewrite evScale /krecip evMap evTrace [eval_mx _ (MMul (kf_cen _ _ _ _) _)]evMul evTr.
+    rewrite !ev_kf_cen envk_Phi [in LHS]mxE [sfun_mx _ _ _]/= (ev_ones11 n envk).
+    by apply/matrixP => i j; rewrite !mxE mulrnAr mulrC.
+  Qed.
+
+  (* C12_center_feature_space, program form: the kernel route on K = Phi Phi^T,
+     Kt = Psi Phi^T equals the feature route on Phi, Psi *)
+  Lemma kf_transform_eq :
+    kf_transform_mx cfg w Phi Psi
+    = kn_transform_mx cfg w (kn_fit_mx cfg (Phi *m Phi^T) w) (Psi *m Phi^T).
+  Proof.
+    have [e2 e3] := kn_center_feature_space ok Phi.
+    rewrite e3 e2 /kf_transform_mx -/envk /kf_transform evScale /krecip evMap.
+    rewrite [eval_mx _ (MMul (kf_cen _ _ _ _) _)]evMul evTr !ev_kf_cen envk_Phi envk_Psi.
+    by rewrite ev_kf_scale [in LHS]mxE.
+  Qed.
+End FeatureRoute.
+
+(* ---- SparseKernelCenterer ---------------------------------------------------------------------- *)
+Section Sparse.
+  Variable F : rcfType.
+  Variables (cfg : kn_cfg) (n m : nat) (w : 'cV[F]_n).
+  Variables (Knm : 'M[F]_(n, m)) (Kmm P : 'M[F]_(m, m)).
+  Hypothesis ok : kn_wok cfg w.
+  Let ew := kn_effw cfg w.
+
+  Definition sk_rows_spec : 'rV[F]_m := if kn_center cfg then wmean ew Knm else 0.
+  (* Knm_centered *)
+  Definition sk_kc_spec : 'M[F]_(n, m) := Knm - rows_of n sk_rows_spec.
+  Definition sk_scale_spec : 'M[F]_(1, 1) :=
+    if kn_trace cfg
+    then (Num.sqrt (\tr (sk_kc_spec *m P *m sk_kc_spec^T) / n%:R))%:M else 1%:M.
+
+  Let envs := env_of [:: box Knm; box w; box0 F; box0 F; box0 F; box0 F; box Kmm; box P].
+  Lemma envs_w : envs n 1%N 1%N = w.
+  Proof. by rewrite /envs /env_of /= unbox_box. Qed.
+  Lemma envs_Knm : eval_mx envs (sKnm n m) = Knm.
+  Proof. by rewrite /sKnm evVar /envs /env_of /= unbox_box. Qed.
+  Lemma envs_P : eval_mx envs (sP m) = P.
+  Proof. by rewrite /sP evVar /envs /env_of /= unbox_box. Qed.
+
+  Lemma ev_sk_rows : eval_mx envs (sk_rows cfg n m) = sk_rows_spec.
+  Proof.
+    rewrite /sk_rows /sk_rows_spec; case: (kn_center cfg) => //.
+    by rewrite (ev_avg0 envs_w ok) envs_Knm wmeanE.
+  Qed.
+
+  Lemma ev_sk_kc : eval_mx envs (sk_kc cfg n m) = sk_kc_spec.
+  Proof. by rewrite /sk_kc evSub evMul evOnes envs_Knm ev_sk_rows /sk_kc_spec rows_ofE. Qed.
+
+  Lemma ev_sk_scale : eval_mx envs (sk_scale cfg n m) = sk_scale_spec.
+  Proof.
+    rewrite /sk_scale /sk_scale_spec; case: (kn_trace cfg); last by [].
+    rewrite evMap evScale /krecip evMap evTrace /sk_khat !evMul evTr ev_sk_kc envs_P.
+    rewrite [in X in map_mx _ X]mxE [sfun_mx Frecip _ _]/= (ev_ones11 n envs).
+    by apply/matrixP => i j; rewrite !mxE /= mulrnAr mulrC !ord1 /= !mulr1n.
+  Qed.
+
+  Lemma sk_fit_mxE : sk_fit_mx cfg Knm w Kmm P = (sk_rows_spec, sk_scale_spec).
+  Proof. by rewrite /sk_fit_mx -/envs ev_sk_rows ev_sk_scale. Qed.
+
+  Lemma sk_transform_mxE k (st : sk_st F m) (Kt : 'M[F]_(k, m)) :
+    sk_transform_mx st Kt = (st.2 ord0 ord0)^-1 *: (Kt - rows_of k st.1).
+  Proof.
+    rewrite /sk_transform_mx /sk_transform evScale /krecip evMap evSub evMul evOnes.
+    rewrite /sKt /sRows /kScale !evVar /env_of /= !unbox_box [in LHS]mxE /=.
+    by rewrite rows_ofE.
+  Qed.
+
+  (* C12_sparse_column_means_zero *)
+  Lemma sk_column_means_zero :
+    kn_center cfg ->
+    let st := sk_fit_mx cfg Knm w Kmm P in
+    st.2 ord0 ord0 != 0 -> wmean ew (sk_transform_mx st Knm) = 0.
+  Proof.
+    move=> ce st _; rewrite /st sk_fit_mxE sk_transform_mxE /= /sk_rows_spec ce.
+    rewrite !wmeanE -scalemxAr mulmxBr rows_ofE !mulmxA.
+    have -> : (nw ew)^T *m const_mx 1 = 1%:M.
+      by rewrite -[LHS]trmxK trmx_mul trmxK trmx_const ones_nw // trmx1.
+    by rewrite mul1mx subrr scaler0.
+  Qed.
+
+  (* C12_sparse_nystrom_trace_n *)
+  Lemma sk_nystrom_trace_n :
+    kn_trace cfg ->
+    let st := sk_fit_mx cfg Knm w Kmm P in
+    0 < \tr ((Knm - rows_of n st.1) *m P *m (Knm - rows_of n st.1)^T) ->
+    let T := sk_transform_mx st Knm in
+    \tr (T *m P *m T^T) = n%:R.
+  Proof.
+    move=> tr st; rewrite /st sk_fit_mxE /= -/sk_kc_spec => t0.
+    rewrite sk_transform_mxE /= -/sk_kc_spec /sk_scale_spec tr mxE eqxx mulr1n.
+    set t := \tr _ in t0 *.
+    have n0 : (0 : F) < n%:R.
+      rewrite ltr0n lt0n; apply: contraTneq t0 => n0.
+      by rewrite /t mxtrace_mulC; move: sk_kc_spec; rewrite n0 => A; rewrite thinmx0 mul0mx mxtrace0 ltxx.
+    have q0 : 0 < t / n%:R by rewrite divr_gt0.
+    set s := Num.sqrt _.
+    have s2 : s ^+ 2 = t / n%:R by rewrite sqr_sqrtr // ltW.
+    have s0 : s != 0 by rewrite lt0r_neq0 // sqrtr_gt0.
+    rewrite linearZ /= -scalemxAl -scalemxAl -scalemxAr scalerA mxtraceZ -/t.
+    by rewrite -invfM -expr2 s2 invf_div divfK ?lt0r_neq0.
+  Qed.
+End Sparse.
+
+(* ---- the pseudo-inverse oracle: consequences of the Penrose equations ------------------------ *)
+Section Penrose.
+  Variable F : rcfType.
+  Variable m : nat.
+  Implicit Types (K P Q : 'M[F]_(m, m)).
+
+  Lemma penrose_unique K P Q : penrose K P -> penrose K Q -> P = Q.
+  Proof.
+    move=> [p1 p2 p3 p4] [q1 q2 q3 q4].
+    have c1 : P *m K = Q *m K.
+      have h1 : P *m K *m (Q *m K) = P *m K by rewrite -mulmxA (mulmxA K) q1.
+      have h2 : P *m K *m (Q *m K) = Q *m K.
+        by rewrite -p4 -q4 -trmx_mul -mulmxA (mulmxA K) p1.
+      by rewrite -h1 h2.
+    have c2 : K *m P = K *m Q.
+      have h3 : K *m Q *m (K *m P) = K *m P by rewrite mulmxA q1.
+      have h4 : K *m Q *m (K *m P) = K *m Q.
+        by rewrite -q3 -p3 -trmx_mul mulmxA p1.
+      by rewrite -h3 h4.
+    by rewrite -{1}p2 c1 -mulmxA c2 mulmxA q2.
+  Qed.
+
+  Lemma penrose_sym K P : K^T = K -> penrose K P -> P^T = P.
+  Proof.
+    move=> sK pe; have [p1 p2 p3 p4] := pe; symmetry; apply: (penrose_unique pe).
+    have e3 : K *m P^T = P *m K by rewrite -{1}sK -trmx_mul p4.
+    have e4 : P^T *m K = K *m P by rewrite -{1}sK -trmx_mul p3.
+    split.
+    - by have := congr1 trmx p1; rewrite !trmx_mul sK mulmxA.
+    - by have := congr1 trmx p2; rewrite !trmx_mul sK mulmxA.
+    - by rewrite e3 p4.
+    - by rewrite e4 p3.
+  Qed.
+End Penrose.
+
+Section GramFacts.
+  Variable F : rcfType.
+
+  Lemma mxtrace_gram_ge0 n q (B : 'M[F]_(n, q)) : 0 <= \tr (B *m B^T).
+  Proof.
+    rewrite /mxtrace; apply: sumr_ge0 => i _; rewrite mxE; apply: sumr_ge0 => j _.
+    by rewrite !mxE -expr2 sqr_ge0.
+  Qed.
+
+  Lemma gram_eq0 n q (B : 'M[F]_(n, q)) : B *m B^T = 0 -> B = 0.
+  Proof.
+    move=> B0; apply/matrixP => i j; rewrite [RHS]mxE.
+    have := congr1 (fun M : 'M[F]_n => M i i) B0; rewrite !mxE.
+    move/eqP; rewrite psumr_eq0 => [/allP H|l _]; last by rewrite !mxE -expr2 sqr_ge0.
+    have := H j (mem_index_enum _); rewrite /= !mxE -expr2 sqrf_eq0.
+    by move/eqP.
+  Qed.
+End GramFacts.
+
+Section SparseFeature.
+  Variable F : rcfType.
+  Variables (cfg : kn_cfg) (n m p : nat) (w : 'cV[F]_n).
+  Variables (Phi : 'M[F]_(n, p)) (A : 'M[F]_(m, p)) (P : 'M[F]_(m, m)).
+  Hypothesis ok : kn_wok cfg w.
+  Hypothesis pe : penrose (A *m A^T) P.
+  Let Pi : 'M[F]_(p, p) := A^T *m P *m A.
+  Let Phic := Phi - rows_of n (feat_mu cfg w Phi).
+
+  Lemma gram_sym : (A *m A^T)^T = A *m A^T.
+  Proof. by rewrite trmx_mul trmxK. Qed.
+
+  Lemma Pi_idem : Pi *m Pi = Pi.
+  Proof.
+    have [_ p2 _ _] := pe.
+    have -> : Pi *m Pi = A^T *m (P *m (A *m A^T) *m P) *m A by rewrite /Pi !mulmxA.
+    by rewrite p2.
+  Qed.
+
+  Lemma Pi_sym : Pi^T = Pi.
+  Proof. by rewrite /Pi !trmx_mul trmxK (penrose_sym gram_sym pe) mulmxA. Qed.
+
+  (* Pi fixes the active features: it is the orthogonal projector onto their row space *)
+  Lemma Pi_fixes : A *m Pi = A.
+  Proof.
+    have [p1 p2 p3 p4] := pe; have sP := penrose_sym gram_sym pe.
+    set K := A *m A^T in p1 p2 p3 p4.
+    apply/eqP; rewrite -subr_eq0; apply/eqP; apply: gram_eq0.
+    rewrite linearB /= trmx_mul Pi_sym mulmxBl !mulmxBr.
+    have -> : A *m Pi *m (Pi *m A^T) = A *m (Pi *m Pi) *m A^T by rewrite !mulmxA.
+    rewrite Pi_idem.
+    have -> : A *m Pi *m A^T = K *m P *m K by rewrite /Pi /K !mulmxA.
+    have -> : A *m (Pi *m A^T) = K *m P *m K by rewrite /Pi /K !mulmxA.
+    by rewrite -/K p1 !subrr.
+  Qed.
+
+  (* the centred Nystrom kernel is the Gram matrix of the centred features projected onto
+     the span of the active features; the sparse fit in these terms *)
+  Lemma sk_feature_space :
+    let st := sk_fit_mx cfg (Phi *m A^T) w (A *m A^T) P in
+    let Kc := Phi *m A^T - rows_of n st.1 in
+    [/\ Kc = Phic *m A^T,
+        Kc *m P *m Kc^T = (Phic *m Pi) *m (Phic *m Pi)^T,
+        0 <= \tr (Kc *m P *m Kc^T)
+      & st.2 = if kn_trace cfg
+               then (Num.sqrt (\tr ((Phic *m Pi) *m (Phic *m Pi)^T) / n%:R))%:M else 1%:M].
+  Proof.
+    move=> st Kc.
+    have eKc : Kc = Phic *m A^T.
+      rewrite /Kc /st sk_fit_mxE //= /sk_rows_spec /Phic /feat_mu !rows_ofE.
+      case: (kn_center cfg); last by rewrite !mulmx0 !subr0.
+      by rewrite mulmxBl !wmeanE !mulmxA.
+    have eH : Kc *m P *m Kc^T = (Phic *m Pi) *m (Phic *m Pi)^T.
+      rewrite eKc [(Phic *m Pi)^T]trmx_mul Pi_sym mulmxA -(mulmxA Phic Pi Pi) Pi_idem.
+      by rewrite trmx_mul trmxK /Pi !mulmxA.
+    split=> //; first by rewrite eH mxtrace_gram_ge0.
+    by rewrite /st sk_fit_mxE //= /sk_scale_spec -/(sk_kc_spec _ _ _) -eH /Kc /st sk_fit_mxE.
+  Qed.
+End SparseFeature.
+
+(* ---- a concrete input over every real closed field (non-vacuity) ----------------------------- *)
+Lemma kn_nonvacuous (F : rcfType) :
+  let cfg := KnCfg true true false in
+  let Phi : 'M[F]_(2, 1) := \matrix_(i, j) (i : nat)%:R *+ 2 in
+  let w : 'cV[F]_2 := 0 in
+  [/\ kn_wok cfg w,
+      (kn_fit_mx cfg (Phi *m Phi^T) w).2 = 1%:M,
+      penrose (1%:M : 'M[F]_1) 1%:M
+    & let st := sk_fit_mx cfg (Phi *m (1%:M : 'M[F]_1)^T) w 1%:M 1%:M in
+      \tr ((Phi *m (1%:M)^T - rows_of 2 st.1) *m 1%:M *m (Phi *m (1%:M)^T - rows_of 2 st.1)^T) = 2%:R].
+Proof.
+  move=> cfg Phi w.
+  have two : (2%:R : F) != 0 by rewrite pnatr_eq0.
+  have ok : kn_wok cfg w by rewrite /kn_wok /kn_effw /= wsum_ones.
+  have m1 : wmean (const_mx 1) Phi = const_mx 1.
+    apply/rowP => j; rewrite wmean_ones !mxE !big_ord_recl big_ord0 !mxE /=.
+    have -> : bump 0 0 = 1%N by [].
+    by rewrite !add0r addr0; apply: divff.
+  have cen : Phi - rows_of 2 (const_mx 1) = \matrix_(i, j) ((i : nat)%:R *+ 2 - 1).
+    by apply/matrixP => i j; rewrite !mxE.
+  have trc : \tr ((Phi - rows_of 2 (const_mx 1)) *m (Phi - rows_of 2 (const_mx 1))^T) = 2%:R.
+    rewrite cen /mxtrace !big_ord_recl big_ord0 !mxE !big_ord_recl !big_ord0 !mxE /=.
+    have -> : bump 0 0 = 1%N by [].
+    by rewrite mul0rn sub0r mulrNN mulr1 mulr2n addrK mulr1 !addr0.
+  split=> //.
+  - have [-> _] := kn_center_feature_space ok Phi.
+    by rewrite /= /feat_mu /= /kn_effw /= m1 trc divff.
+  - by split; rewrite ?mulmx1 // trmx1.
+  - cbv zeta; rewrite sk_fit_mxE //= /sk_rows_spec /= /kn_effw /= trmx1 !mulmx1.
+    by rewrite m1 trc.
+Qed.
+
+(* with_trace=False removes exactly the scaling *)
+Lemma kn_trace_only_scales (F : rcfType) (c h : bool) (n : nat) (w : 'cV[F]_n) (K : 'M[F]_(n, n)) :
+  let cfg1 := KnCfg c true h in
+  let cfg0 := KnCfg c false h in
+  kn_wok cfg1 w ->
+  let st1 := kn_fit_mx cfg1 K w in
+  let st0 := kn_fit_mx cfg0 K w in
+  [/\ st0.1 = st1.1, st0.2 = 1%:M
+    & st1.2 ord0 ord0 != 0 ->
+      forall k (Kt : 'M[F]_(k, n)),
+        kn_transform_mx cfg0 w st0 Kt = st1.2 ord0 ord0 *: kn_transform_mx cfg1 w st1 Kt].
+Proof.
+  move=> cfg1 cfg0 ok1 st1 st0.
+  have ok0 : kn_wok cfg0 w by [].
+  rewrite /st0 /st1 !kn_fit_mxE //=; split=> // s0 k Kt.
+  rewrite !kn_transform_mxE //= scalerA mulfV // scale1r.
+  by rewrite /scale_spec /= mxE eqxx mulr1n invr1 scale1r.
+Qed.
+
+Lemma Pi_projector (F : rcfType) (m p : nat) (A : 'M[F]_(m, p)) (P : 'M[F]_(m, m)) :
+  penrose (A *m A^T) P ->
+  let Pi := A^T *m P *m A in
+  [/\ Pi *m Pi = Pi, Pi^T = Pi & A *m Pi = A].
+Proof.
+  by move=> pe; split; [exact: (Pi_idem pe) | exact: (Pi_sym pe) | exact: (Pi_fixes pe)].
+Qed.
